@@ -8,6 +8,7 @@ import (
 	"encoding/base64"
 	"encoding/json"
 	"fmt"
+	"io"
 	"math/rand/v2"
 	"net/http"
 	"net/http/httptest"
@@ -60,7 +61,7 @@ func main() {
 	wit.EnsureMetrics(nil)
 	run := ev.Start("C19", "exploration")
 	defer run.Finish()
-	run.Rule("(i) deterministic mutational sweep of add-checkpoint bodies (seeds: valid requests of every verdict class) through the real handler and real witness: no panic, status in {200,400,403,404,409,422,429,500}; (ii) Proof.Unmarshal and the body parser on arbitrary and mutated bytes: no panic; (iii) hostile responses for all five feeders and the distributor, executed in child processes that log each case before running it: first answer in {valid, log-signed checkpoints with sizes {0,1,2^62-1,2^62,2^62+1,2^63-1,2^63,2^64-1} x root lengths {0,5,32,33}, truncated, random, empty, 5 MiB, 404, 500, redirect loop, stall, transport error} x other answers {404, random, empty, zero tile, 5 MiB, 500, stall} x witness {holds nothing, holds a small honest checkpoint}; each cycle has a context deadline D and must end with a result or an error by D+10 s, else the parent kills the child and attributes the hang to the logged case. evaluations = inputs executed; nontrivial = distinct (part, feeder, first-answer class, other-answer class, witness state, outcome class)")
+	run.Rule("(i) deterministic mutational sweep of add-checkpoint bodies (seeds: valid requests of every verdict class) through the real handler and real witness: no panic, status in {200,400,403,404,409,422,429,500}; (i') eight goroutines send state-independent bodies (malformed, unknown origin, bad signature) in fragments to ONE handler at the same time: no panic, each gets its own status; (ii) Proof.Unmarshal and the body parser on arbitrary and mutated bytes: no panic; (iii) hostile responses for all five feeders and the distributor, executed in child processes that log each case before running it: first answer in {valid, log-signed checkpoints with sizes {0,1,2^62-1,2^62,2^62+1,2^63-1,2^63,2^64-1} x root lengths {0,5,32,33}, truncated, random, empty, 5 MiB, 404, 500, redirect loop, stall, transport error} x other answers {404, random, empty, zero tile, 5 MiB, 500, stall} x witness {holds nothing, holds a small honest checkpoint}; each cycle has a context deadline D and must end with a result or an error by D+10 s, else the parent kills the child and attributes the hang to the logged case. evaluations = inputs executed; nontrivial = distinct (part, feeder, first-answer class, other-answer class, witness state, outcome class)")
 	run.Assume("process liveness and bounded return are judged per case; a case still running D+10 s after it was logged is a hang", "coverage-guided fuzzing is not part of the quick tier")
 	run.Floor("handler_inputs", 100000)
 	run.Floor("parser_inputs", 50000)
@@ -70,6 +71,7 @@ func main() {
 	}
 	dir := run.Scratch()
 	handlerSweep(run, dir)
+	handlerConcurrent(run, dir)
 	parserSweep(run)
 	hostile(run, dir)
 	if run.Thorough() {
@@ -174,6 +176,113 @@ func mutateBody(r *rand.Rand, b []byte) []byte {
 		b = bytes.Join(lines, []byte("\n"))
 	}
 	return b
+}
+
+// handlerConcurrent: the endpoint sits behind an HTTP/2 server that runs one goroutine per stream, so
+// requests overlap and their bodies arrive in pieces. Bodies whose verdict does not depend on the witness
+// state (malformed -> 400, unknown origin -> 404, bad signature -> 403) must get exactly that status also
+// when many of them are in flight on the same handler; nothing may panic.
+func handlerConcurrent(run *ev.Run, dir string) {
+	run.Floor("concurrent_handler_requests", 2000)
+	run.Units("handler_concurrent", run.Pick(24, 240), 0, func(unit int64, r *rand.Rand) {
+		u := gen.NewUniverse(r, gen.Opts{NLogs: 2, MaxSize: 30, Branches: 2})
+		st, _ := wit.NewStore("mem", dir)
+		defer st.Close()
+		keys, _ := wit.NewWitKeys(r, []bool{false, true}, true)
+		rn, err := wit.NewRunner(u, keys, st, nil)
+		if err != nil {
+			run.Inconclusive(err.Error())
+			return
+		}
+		var logs []config.Log
+		for _, l := range u.Logs {
+			cl, _ := config.NewLog(l.Origin, l.Key.Vkey(), "http://x.invalid/")
+			logs = append(logs, cl)
+		}
+		h := http.MaxBytesHandler(bastion.VerifNewHandler(omniwitness.VerifWitnessAdapter(rn.W), logs, keys.Signers[1].(interface{ Verifier() note.Verifier }).Verifier(), 1e12), 16*1024)
+		l := u.Logs[0]
+		type req struct {
+			body []byte
+			want int
+			kind string
+		}
+		mk := func(rr *rand.Rand) req {
+			pad := func(n int) [][]byte {
+				var p [][]byte
+				for i := 0; i < n; i++ {
+					p = append(p, randBytes(rr, 32))
+				}
+				return p
+			}
+			enc := func(old string, proof [][]byte, cp []byte) []byte {
+				var b bytes.Buffer
+				b.WriteString("old " + old + "\n")
+				for _, p := range proof {
+					b.WriteString(base64.StdEncoding.EncodeToString(p) + "\n")
+				}
+				b.WriteString("\n")
+				b.Write(cp)
+				return b.Bytes()
+			}
+			switch rr.IntN(4) {
+			case 0: // malformed: long run without a newline after a valid first line
+				return req{append([]byte("old 0\n"), bytes.Repeat([]byte("A"), 1000+rr.IntN(3000))...), 400, "malformed_long_line"}
+			case 1: // unknown origin, with a long proof
+				t := refnote.Body("nobody.example/unknown", 5, randBytes(rr, 32))
+				return req{enc("0", pad(rr.IntN(60)), refnote.Assemble(t, l.Key.SigLine(t))), 404, "unknown_origin"}
+			case 2: // known origin, signature by a foreign key
+				t := refnote.Body(l.Origin, 9, randBytes(rr, 32))
+				return req{enc("0", pad(rr.IntN(60)), refnote.Assemble(t, u.Foreign[0].SigLine(t))), 403, "bad_signature"}
+			}
+			return req{[]byte("old x\n\n"), 400, "malformed_old_line"}
+		}
+		var wg sync.WaitGroup
+		for g := 0; g < 8; g++ {
+			gr := rand.New(rand.NewPCG(r.Uint64(), uint64(g)))
+			wg.Add(1)
+			go func() {
+				defer wg.Done()
+				for k := 0; k < 12; k++ {
+					q := mk(gr)
+					pr, pw := io.Pipe()
+					go func() { // the body arrives in pieces, other requests run in between
+						b := q.body
+						for len(b) > 0 {
+							n := 1 + gr.IntN(700)
+							if n > len(b) {
+								n = len(b)
+							}
+							pw.Write(b[:n])
+							b = b[n:]
+							if gr.IntN(3) == 0 {
+								time.Sleep(time.Duration(gr.IntN(200)) * time.Microsecond)
+							}
+						}
+						pw.Close()
+					}()
+					code := -1
+					func() {
+						defer func() {
+							if p := recover(); p != nil {
+								run.Violate("handler_panics_under_overlapping_requests", fmt.Sprintf("the add-checkpoint handler panicked while requests overlapped: %v", p), unit, map[string]any{"kind": q.kind})
+							}
+						}()
+						rec := httptest.NewRecorder()
+						h.ServeHTTP(rec, httptest.NewRequest(http.MethodPost, "/", pr))
+						code = rec.Code
+					}()
+					io.Copy(io.Discard, pr)
+					run.Count("evaluations")
+					run.Count("concurrent_handler_requests")
+					run.Distinct("nontrivial", fmt.Sprintf("concurrent/%s/%d", q.kind, code))
+					if code != -1 && code != q.want {
+						run.Violate(fmt.Sprintf("overlapping_requests_wrong_status;%s;got=%d", q.kind, code), fmt.Sprintf("a %s body got %d instead of %d while other requests were in flight on the same handler", q.kind, code, q.want), unit, map[string]any{"kind": q.kind, "body_len": len(q.body)})
+					}
+				}
+			}()
+		}
+		wg.Wait()
+	})
 }
 
 // ---------- (ii) parsers ----------
